@@ -81,6 +81,33 @@ def run_case(case, fail, stats):
             if np.linalg.norm(At @ z - b) < r0 * (1 - 1e-9) - 1e-12:
                 fail("C16", "not-least-squares", {"A": case["A"], "b": case["b"]})
                 break
+    elif kind == "lstsq_seq":
+        # one SVD object reused for several solves with different truncation settings
+        A = np.array(case["A"], dtype=float)
+        svd = SVD(A)
+        stats["lstsq_seq_cases"] = stats.get("lstsq_seq_cases", 0) + 1
+        k = len(svd.s)
+        for b, rcond, cutoff in case["calls"]:
+            b = np.array(b, dtype=float)
+            kw = {}
+            if rcond is not None:
+                kw["rcond"] = rcond
+            x = svd.lstsq(b, sing_val_cutoff=cutoff, **kw)
+            rc = svd.rcond if rcond is None else rcond
+            cut = k if cutoff is None else cutoff
+            s = svd.s.copy()
+            keep = np.zeros(k, dtype=bool)
+            keep[:cut] = True
+            keep &= s > 0
+            keep &= ~(s < rc * s[0])
+            At = (svd.U[:, keep] * s[keep]) @ svd.Vh[keep, :]
+            xref = np.linalg.pinv(At, rcond=1e-15) @ b if keep.any() else np.zeros(A.shape[1])
+            scale = max(1.0, float(np.max(np.abs(xref))) if xref.size else 1.0)
+            if not np.allclose(x, xref, rtol=1e-8, atol=1e-9 * scale):
+                fail("C16", "reused-SVD-lstsq-differs-from-truncated-pinv", {"A": case["A"], "calls": case["calls"],
+                                                                              "failing_call": [b.tolist(), rcond, cutoff],
+                                                                              "got": x.tolist(), "want": xref.tolist()})
+                break
     elif kind == "newton":
         # a consistent, well-conditioned linear problem inside wide limits: the first step lands on the solution
         A = np.array(case["A"], dtype=float)
@@ -187,7 +214,13 @@ def run_case(case, fail, stats):
 def gen_cases(rng, n):
     for i in range(n):
         r = rng.random()
-        if r < 0.55:
+        if r < 0.12:
+            m, nn = rng.randint(2, 6), rng.randint(2, 5)
+            A = gen_matrix(rng, m, nn, rng.choice(["full", "scaled", "full"]))
+            calls = [[[rng.choice([-3, -1, 0, 1, 2, 5.5]) for _ in range(m)], rng.choice([None, None, 1e-6, 0.05, 0.3, 0.7]),
+                      rng.choice([None, None, 1, 2])] for _ in range(rng.randint(2, 4))]
+            yield {"kind": "lstsq_seq", "A": A.tolist(), "calls": calls}
+        elif r < 0.55:
             m, nn = rng.randint(1, 6), rng.randint(1, 6)
             kind = rng.choice(["full", "full", "rankdef", "rankdef_rows", "scaled", "zero"])
             A = gen_matrix(rng, m, nn, kind)
